@@ -334,6 +334,11 @@ def main(run: core.Run):
         return it[1][0]
 
     core.pmap(run, any_case, items, weight=weight)
+    # ranks are separate interpreters: the new_group sequence must not depend
+    # on the per-process hash seed (same pass as C06, which also compares
+    # the recorded group creation order)
+    from vf.checks import c06
+    c06.cross_process(run)
     run.c['evaluations'] = run.c.get('executions', 0) + \
         run.c.get('evaluations', 0)
     run.c['distinct_nontrivial'] = len(run.distinct.get('nontrivial', ()))
@@ -351,7 +356,8 @@ def main(run: core.Run):
         'colocation, each history run under 2-3 schedules incl. lazy '
         'delivery; exhaustive / deviation-bounded interleavings of small '
         'histories with load/state/memory operations; construction for '
-        'every world <= 16 x divisor; GPT-NeoX construction on every (pipe,'
+        'every world <= 16 x divisor (and, in separate interpreters with '
+        'different hash seeds, identical group creation order); GPT-NeoX construction on every (pipe,'
         ' data, model) in {1,2,3}^3 and train/state/load histories on '
         '(2,1),(1,2),(2,2),(2,2,2); oracle = matching of kind/shape/'
         'dtype/root per group instance, membership, identical new_group '
